@@ -847,6 +847,9 @@ class ModelReader:
 
     def read_model(self, **kwargs):
 
+        prev_ios = set(self.system.iomanager.ios)
+        prev_model = self.system.currentmodel
+
         try:
             self.system.serializing = self
             self.system.iomanager.serializing = True
@@ -873,6 +876,15 @@ class ModelReader:
         except:
             if self.model:
                 self.model.close()
+            # The IOs registered by this load, those of files
+            # at absolute paths included
+            ios = self.system.iomanager.ios
+            for key in [k for k in ios if k not in prev_ios]:
+                del ios[key]
+            # The current model is the one it was
+            if (prev_model is not None and
+                    self.system.models.get(prev_model.name) is prev_model):
+                self.system.currentmodel = prev_model
             raise
 
         finally:
